@@ -69,7 +69,7 @@ static inline void h_fill(hctx* h, uint8_t* p, size_t n, int kind) {
 
 /* ---- replay support: parse one op line ---- */
 typedef struct { char* key; char* val; } h_kv;
-typedef struct { char* op; h_kv in[160]; int n_in; h_kv out[160]; int n_out; char* storage; } h_line;
+typedef struct { char* op; h_kv in[400]; int n_in; h_kv out[400]; int n_out; char* storage; } h_line;
 int h_parse_line(const char* s, h_line* l);              /* 0 ok */
 void h_free_line(h_line* l);
 const char* h_in(const h_line* l, const char* key);       /* NULL if absent */
